@@ -118,6 +118,7 @@ def int_expr(e, env):
 
 # ----------------------------------------------------------------------------------------------------- targets
 TARGETS = []  # (name, file, props, fn)
+FILE_IMPORTS = {"Decide": ["XeofsModel.Py"], "Facts": [], "Codec": [], "Formulas": ["XeofsModel.Num"]}
 
 
 def target(name, file, props):
@@ -198,7 +199,8 @@ def generate_all(log=print, out_dir=None):
         files.setdefault(file, []).append(text)
         report["targets"].append(entry)
     for file, parts in files.items():
-        body = "-- AUTOGENERATED by /verif/translator from /repo; do not edit, never committed\nnamespace Gen\n\n"
+        imports = "".join(f"import {m}\n" for m in FILE_IMPORTS.get(file, []))
+        body = imports + "-- AUTOGENERATED by /verif/translator from /repo; do not edit, never committed\nnamespace Gen\n\n"
         body += "\n".join(parts) + "\nend Gen\n"
         p = os.path.join(out_dir, file + ".lean")
         old = open(p, encoding="utf-8").read() if os.path.exists(p) else None
